@@ -3,6 +3,7 @@ CFG = {
     "jobs": lambda tier: [
         J("scaled", "c03", imports="Base Stream Inst Run RunC03", shard=4, timeout=3000),
         J("prod", "c03-lengths"),
+        J("prod", "c03-cli", script="tools/cli/c03_cli_job.py", needs_repo_bins=["mlar"], timeout=600),
     ],
     "run_modules": ["RunC03"],
     "rule": "scaled constants (CHUNK=64): 4 (quick) / 20 (thorough) generated encrypted and encrypted+compressed archives of <= 560/900 bytes "
@@ -38,3 +39,8 @@ CFG = {
 CFG["rule"] += ("; unaltered length sweep: scaled - one file of every size 0..3*CHUNK+8 (thorough 4*CHUNK+20), layers ENCRYPT and ENCRYPT|COMPRESS, opened, listed and read; "
                 "c03-lengths (production constants) - the layer's plaintext takes every length in [k*CHUNK-8, k*CHUNK+24], k = 1, 2 (3 in thorough): an archive of one chunk "
                 "plus 1-3 bytes exists only at production constants")
+
+# round-4 seeds C03-m7 / C03-m8
+CFG["rule"] += ("; alteration while a reader is open (4 / 12 archives): every file read once, then one bit of each chunk in turn altered in the source, the SAME reader reads every "
+                "file again: each returned byte is the original one or the read fails; c03-cli (production mlar): the header of an encrypted archive altered to claim no "
+                "encryption (ENCRYPT bit cleared / all bits cleared, key material kept) over the body of an attacker-written unencrypted archive: `mlar list -k` / `cat -k` fail")
